@@ -3,6 +3,7 @@
   All statements are for every mode, identity, auxiliary-gid list and 32-bit request word.
 -/
 import Absnfs.Access
+import Gen.Facts
 import Absnfs.Auth
 open Absnfs
 
@@ -132,5 +133,8 @@ theorem root_squash_no_override (mode : Nat) (c : Identity) (fu fg : Nat) (h0 : 
     · by_cases hz : g = 0
       · rw [hz] at h; simp at h; exact hg h.symm
       · simp [hz] at h; exact h1 h
+
+/-- regenerated from the source on every run: the connection loop builds the authentication context inside its request loop, from that call's credential: the identity ACCESS judges is the call's own -/
+theorem gen_conn_loop_identity_per_call : Gen.connLoopAuthPerCall = true := by decide
 
 end Props.C12
